@@ -12,7 +12,7 @@ From LzVerif Require Import Base.Bytes Codec.Store Codec.Range Codec.ProbProofs 
   Codec.LzWindow Codec.LzmaDec Codec.LzmaEnc Codec.LzmaAbs Codec.LzWindowProofs Codec.RangeEncProofs Codec.RangeProofs
   Codec.LzmaSymProofs Codec.LzmaRoundtrip Codec.LzmaChunkProofs Codec.LzmaWriters
   Codec.Lzma2Dec Codec.Lzma2SpecProofs Codec.Lzma2FrameSyncProofs Codec.Lzma2LoopProofs Codec.Lzma2Loop0Proofs Codec.Lzma2ReadProofs Codec.Total2Proofs
-  Mt.Units Mt.UnitsProofs Mt.Lzma2Units Mt.Lzma2UnitsAbsProofs Mt.Lzma2UnitsSimProofs.
+  Codec.Lzma2ExamplesProofs Mt.Units Mt.UnitsProofs Mt.Lzma2Units Mt.Lzma2UnitsAbsProofs Mt.Lzma2UnitsSimProofs.
 Ltac Zify.zify_post_hook ::= Z.div_mod_to_equations.
 Local Open Scope Z_scope.
 
@@ -505,3 +505,21 @@ Proof.
   intros sizes fuel Hsz Hf.
   exact (reader_sound dict None _ _ tail Hbytes Ha sizes fuel Hsz Hf).
 Qed.
+
+(* ---- the two closed forms of the chunk-level statements ------------------------------------------ *)
+Theorem astep_indep_init : forall (ds : Z) (preset : option (list Z)) (d : dstate) (k : chunk),
+  chunk_independent k = true -> astep ds d k = astep ds (d_init ds preset) k.
+Proof. intros ds preset. exact (astep_indep ds (d_init ds preset)). Qed.
+
+Theorem lzma2_unit_cut_sound : forall (ds : Z) (preset : option (list Z)) (ks : list chunk),
+  decode_units dstate (astep ds) (d_init ds preset) (cut_chunks ks) =
+  decode_chunks dstate (astep ds) (d_init ds preset) ks.
+Proof.
+  intros ds preset. exact (unit_cut_sound dstate (astep ds) (d_init ds preset) (astep_indep ds (d_init ds preset))).
+Qed.
+
+(* ---- helpers for the evaluated examples of Properties/C08Units.v ------------------------------------ *)
+Definition ex_done (r : outcome (list Z * Z * lzma2)) : option (list Z * Z * bool) :=
+  match r with Ok (d, st, s) => Some (d, st, m_end_reached s) | _ => None end.
+Definition ex_body : list Z := removelast ex_stream.
+Definition ex_units : list (list Z * list l2ev * list Z) := [(ex_data, ex_evs, ex_body); (ex_data, ex_evs, ex_body)].
